@@ -14,6 +14,27 @@ import traceback
 VERIF = os.path.dirname(os.path.dirname(os.path.abspath(__file__)))
 REPO = os.environ.get('VERIF_REPO', '/repo')
 CACHE = os.path.join(VERIF, '.cache')
+# Alternate root (used only to try seeded changes in a scratch worktree without touching /repo): all
+# build products and evidence of such a run live under .cache/alt/<key>/ ; the registered commands never set it.
+ALT = os.path.realpath(REPO) != '/repo'
+if ALT:
+    CACHE = os.path.join(CACHE, 'alt', hashlib.sha1(os.path.realpath(REPO).encode()).hexdigest()[:10])
+EVID = os.environ.get('VERIF_EVIDENCE') or (os.path.join(CACHE, 'evidence') if ALT else os.path.join(VERIF, 'evidence'))
+
+
+def crate_dir(name):
+    """/verif/<name> for /repo; for an alternate root a generated twin whose path dependency points there"""
+    base = os.path.join(VERIF, name)
+    if not ALT:
+        return base
+    d = os.path.join(CACHE, name)
+    os.makedirs(d, exist_ok=True)
+    toml = open(os.path.join(base, 'Cargo.toml')).read().replace('path = "/repo"', 'path = "%s"' % os.path.realpath(REPO))
+    with open(os.path.join(d, 'Cargo.toml'), 'w') as f:
+        f.write(toml)
+    if not os.path.islink(os.path.join(d, 'src')):
+        os.symlink(os.path.join(base, 'src'), os.path.join(d, 'src'))
+    return d
 sys.path.insert(0, VERIF)
 
 
@@ -113,7 +134,7 @@ def _run_task(task):
     fn = mod.OBLIGATIONS[name]
     res = {'task': [name, shape], 'paths': 0, 'steps': 0, 'queries': 0, 'solver_s': 0.0, 'obligations': 0,
            'discharged': 0, 'violations': [], 'samples': [], 'error': None, 'outcomes': {}, 'wall_s': 0.0,
-           'reached': 0}
+           'reached': 0, 'covers': {}}
     t0 = time.time()
     cfg = getattr(mod, 'CFG', {})
     ex = interp.Explorer(Mx, cfg, seed=_W['seed'], timeout_ms=cfg.get('solver_timeout_ms', 120000))
@@ -137,6 +158,8 @@ def _run_task(task):
         res['discharged'] += h.discharged
         if h.obligations:
             res['reached'] += 1
+        for k, n in getattr(h, 'covers', {}).items():
+            res['covers'][k] = res['covers'].get(k, 0) + n
         for v in h.violations:
             if len(res['violations']) < 40:
                 res['violations'].append(v.to_json())
@@ -166,7 +189,7 @@ def _run_task(task):
 
 def replay_binary(profile='dev', log=sys.stderr):
     """build (if needed) and return the path of the native replay binary"""
-    crate = os.path.join(VERIF, 'replay')
+    crate = crate_dir('replay')
     tdir = os.path.join(CACHE, 'replay-target')
     env = dict(os.environ)
     env.update({'CARGO_NET_OFFLINE': 'true', 'CARGO_TARGET_DIR': tdir})
@@ -213,7 +236,7 @@ def run_kani(harnesses, timeout=900):
     t0 = time.time()
     env = dict(os.environ)
     env.update({'RUSTC_WRAPPER': os.path.join(VERIF, 'tools', 'rustc-wrap.sh'), 'CARGO_NET_OFFLINE': 'true'})
-    crate = os.path.join(VERIF, 'kani')
+    crate = crate_dir('kani')
     lockf = os.path.join(crate, 'Cargo.lock')
     if not os.path.exists(lockf):
         with open(lockf, 'w') as f:
@@ -354,7 +377,7 @@ def finish(pid, mod, tier, seed, results, t0, th, mir_s, tasks, timed_out=False)
     reproduced_new = []
     known_seen = {}
     mismatches = []
-    os.makedirs(os.path.join(VERIF, 'evidence', 'replay'), exist_ok=True)
+    os.makedirs(os.path.join(EVID, 'replay'), exist_ok=True)
     for key, vs in sorted(classes.items(), key=lambda kv: str(kv[0])):
         tried = 0
         hit = None
@@ -384,7 +407,7 @@ def finish(pid, mod, tier, seed, results, t0, th, mir_s, tasks, timed_out=False)
         kf = [k for k in known if k['id'] == kid][0]
         lines.append('KNOWN-FINDING: property=%s %s [%s]' % (pid, kf['what'], kid))
     for n, (v, rr) in enumerate(reproduced_new):
-        path = os.path.join(VERIF, 'evidence', 'replay', '%s-%d.json' % (pid, n))
+        path = os.path.join(EVID, 'replay', '%s-%d.json' % (pid, n))
         with open(path, 'w') as f:
             json.dump(dict(v, native=rr), f, indent=1)
         lines.append('VIOLATION property=%s replay=%s' % (pid, path))
@@ -403,6 +426,14 @@ def finish(pid, mod, tier, seed, results, t0, th, mir_s, tasks, timed_out=False)
         inconclusive.append('task %s: %s' % (r['task'], r['error'][:600]))
     for r in vacuous:
         inconclusive.append('task %s reached no obligation (vacuous)' % (r['task'],))
+    covers = {}
+    for r in results:
+        for k, n in r.get('covers', {}).items():
+            covers[k] = covers.get(k, 0) + n
+    if not timed_out and not errors:
+        for k in getattr(mod, 'MUST_COVER', []):
+            if not covers.get(k):
+                inconclusive.append('reachability witness %s was never reached: the run decided nothing about the obligations behind it' % k)
     kani_info = None
     if getattr(mod, 'KANI', None):
         kres, ksecs, ktail = run_kani(mod.KANI)
@@ -455,14 +486,15 @@ def finish(pid, mod, tier, seed, results, t0, th, mir_s, tasks, timed_out=False)
             'known_findings_seen': sorted(known_seen), 'counterexamples_replayed': replayed,
             'counterexamples_not_reproduced': len(mismatches),
             'inconclusive': inconclusive[:10],
+            'reachability_witnesses': covers,
             'extra': agg.get('extra'),
         },
         'assumptions': getattr(mod, 'ASSUMPTIONS', []),
         'wall_s': round(wall, 2),
         'violations': len(reproduced_new),
     }
-    os.makedirs(os.path.join(VERIF, 'evidence'), exist_ok=True)
-    with open(os.path.join(VERIF, 'evidence', pid + '.json'), 'w') as f:
+    os.makedirs(EVID, exist_ok=True)
+    with open(os.path.join(EVID, pid + '.json'), 'w') as f:
         json.dump(ev, f, indent=1, default=str)
     for l in lines:
         print(l)
@@ -472,7 +504,7 @@ def finish(pid, mod, tier, seed, results, t0, th, mir_s, tasks, timed_out=False)
     for msg in inconclusive[:12]:
         print('INCONCLUSIVE:', msg)
     if mismatches and status == 2:
-        p = os.path.join(VERIF, 'evidence', 'replay', '%s-mismatch.json' % pid)
+        p = os.path.join(EVID, 'replay', '%s-mismatch.json' % pid)
         with open(p, 'w') as f:
             json.dump(mismatches[:10], f, indent=1, default=str)
         print('  model/native mismatches dumped to', p)
